@@ -16,6 +16,9 @@ REQUIRED_THEOREMS = ["Gv.Props.C14." + n for n in [
     "countDifferences_counts_eq_spec", "numGapsUnique_eq_spec", "numMutationsUnique_eq_spec",
     "equalOrCompatible_is_shared_base", "nt2IndexIUPAC_defined_iff", "numMutationsVsRef_eq_spec",
     "listMutationsVsRef_eq_spec", "wildcard_or_compatible_is_no_substitution", "entropy_eq_spec",
+    # the codon-wise list (--aa): error exactly as the code, every entry justified by a reference codon / gap triple
+    "standard_code_defined", "listMutationsVsRefAA_error_iff", "listMutationsVsRefAA_defined_iff_spec",
+    "listMutationsVsRefAA_entries_justified", "aaEntry_reports_a_difference",
     # MaxCharStats / Consensus on the actual count entries of a column (first-appearance order = some map order)
     "countUpper_eq_tally", "countUpper_keys_nodup", "countUpper_lookup", "countUpper_pos",
     "maxCharSite_order_independent", "maxCharSite_is_argmax",
@@ -49,7 +52,12 @@ TECHNIQUE = "Lean 4 proof (order-independence for all permutations, list inducti
 RULE = ("alignments of 1..6 rows x 1..6 columns over small alphabets with ties for the most frequent character, all-gap and all-N "
         "columns, mixed case, specials; all site indices in [-1, L]; both ignore options; every map-ordered call repeated 200 "
         "times; non-trivial = a column with a tie or a boundary index")
-PARTIAL = ["Entropy: the occurrence counts, the summation order and the error/NaN cases are proved (entropy_eq_spec); the float sum itself "
+PARTIAL = ["codon-wise mutation list (--aa): proved are the error condition (= the code's, = the definition's) and that every "
+           "listed entry is justified (window of a reference codon or of three reference gaps, position = reference residues to the "
+           "left / 3, reference amino acid = translation of the codon, alternative = translation of the query residues, not the "
+           "reference amino acid alone); that every differing codon IS listed (model = Spec.aaMutations) is not proved: it is "
+           "checked on every generated pair by the oracle, which evaluates Spec.aaMutations against the implementation's answer",
+           "Entropy: the occurrence counts, the summation order and the error/NaN cases are proved (entropy_eq_spec); the float sum itself "
            "(math.Log) is compared with tolerance 1e-12, rounding is not modelled; AvgAllelesPerSite: the two integer counters are "
            "proved, the float64 quotient is compared with tolerance",
            "Pssm: theorems are over the reals (Props/C14Pssm.lean); float rounding and the last place of math.Log are not modelled: "
@@ -170,6 +178,69 @@ def _gen_core(rng, tier):
         yield Case("entropy", [1, rows_str(rows), 0, 0, 300], True, "entropy-many-classes")
 
 
+def _gen_aa(rng, tier):
+    """codon-wise mutation list (`refmutsaa`): a reference made of codons (stop codons, IUPAC codes, lower case, U) with
+    gap runs of 1..7 columns in front of, inside, between and behind them; the query repeats it with substitutions,
+    residues facing the reference gaps (whole codons, or a number that is not a multiple of 3), deleted codons and
+    partial deletions; lengths that are not a multiple of 3; rarely a character that is no nucleotide code, another
+    alphabet, different lengths (errors)"""
+    N = 120 if tier == "quick" else 4000
+    codons = ["ATG", "TAA", "TAG", "TGA", "GCN", "gcr", "CTN", "YTA", "MGR", "AUG", "TTY", "RAY", "NNN", "AAA", "cgt", "TCA", "GGG", "ATH"]
+    for _ in range(N):
+        rf, q = [], []
+
+        def gaprun():
+            g = rng.choice([1, 2, 3, 3, 4, 5, 6, 7])
+            k = rng.random()
+            rf.extend("-" * g)
+            if k < 0.3:
+                q.extend("-" * g)
+            elif k < 0.6:
+                q.extend(rng.choice("ACGTacgtNR") for _ in range(g))
+            else:
+                q.extend(rng.choice("ACGT--") for _ in range(g))
+        if rng.random() < 0.4:
+            gaprun()
+        for _c in range(rng.randint(0, 6)):
+            cd = rng.choice(codons) if rng.random() < 0.7 else "".join(rng.choice("ACGT") for _ in range(3))
+            for j, ch in enumerate(cd):
+                rf.append(ch)
+                k = rng.random()
+                q.append(ch if k < 0.6 else rng.choice("ACGTacgtNRYKM") if k < 0.85 else "-")
+                if j < 2 and rng.random() < 0.15:
+                    gaprun()
+            k = rng.random()
+            if k < 0.12:
+                q[-3:] = "---"
+            elif k < 0.2:
+                q[-3:] = rng.choice(["TAA", "TGA", "tag", "TAR", "TRA"])
+            if rng.random() < 0.35:
+                gaprun()
+        for _c in range(rng.choice([0, 0, 1, 2])):
+            rf.append(rng.choice("ACGT"))
+            q.append(rng.choice("ACGT-"))
+            if rng.random() < 0.3:
+                gaprun()
+        if not rf:
+            rf, q = ["-"], [rng.choice("A-")]
+        if rng.random() < 0.05:
+            j = rng.randrange(len(rf))
+            (rf if rng.random() < 0.5 else q)[j] = rng.choice("EF?*.X!")
+        alpha = 1
+        k = rng.random()
+        if k < 0.03:
+            alpha = rng.choice([0, 2, 3])
+        elif k < 0.06:
+            q = q[:-1] if len(q) > 1 and rng.random() < 0.5 else q + ["A"]
+        rfs, qs = "".join(rf), "".join(q)
+        yield Case("refmutsaa", [alpha, qs, rfs], "-" in rfs and any(c != "-" for c in rfs), "refmutsaa")
+    # plain random pairs (the same strata as `refmuts`)
+    for _ in range(N // 3):
+        L = rng.randint(1, 16)
+        sym = rng.choice(["ACGT-", "ACGT---", NT, "ACGTRYN-acgt"])
+        yield Case("refmutsaa", [1, "".join(rng.choice(sym) for _ in range(L)), "".join(rng.choice(sym) for _ in range(L))], L >= 3, "refmutsaa-random")
+
+
 def _fl(tok):
     f = tok.split(":")
     return struct.unpack(">d", bytes.fromhex(f[1]))[0]
@@ -205,10 +276,10 @@ def matches(c):
 
 def shrink(c):
     a = list(c.args)
-    if c.op == "refmuts":
+    if c.op in ("refmuts", "refmutsaa"):
         for j in range(len(a[1])):
             if len(a[1]) > 1:
-                yield Case("refmuts", [a[0], a[1][:j] + a[1][j + 1:], a[2][:j] + a[2][j + 1:]])
+                yield Case(c.op, [a[0], a[1][:j] + a[1][j + 1:], a[2][:j] + a[2][j + 1:]])
         return
     if c.op == "compat":
         return
@@ -286,8 +357,12 @@ def gen(rng, tier):
     from driver import multigen
     for c in _gen_core(rng, tier):
         yield c
+    for c in _gen_aa(rng, tier):
+        yield c
     from driver import cligen
     for c in cligen.cases(rng, ['consensus', 'entropy', 'stats', 'gapstats', 'mutstats', 'charstats', 'alleles', 'alphabet'], 40 if tier == "quick" else 400):
+        yield c
+    for c in cligen.cases(rng, ['mutlist', 'mutcount'], 30 if tier == "quick" else 600):
         yield c
     for _ in range(2 if tier == "quick" else 20):
         for argv in MULTI_CMDS:
